@@ -251,6 +251,55 @@ def check(run):
                  f"commit a half-computed observation")
     if not truthy:
         run.ok("PROPAGATE", "package.__exit__", f"{n_exit} __exit__ methods: none can return a true value")
+    # a context manager that carries out work it was handed (queued callables: "commit when the block is left") must do
+    # so only when the block ended normally: run while an exception is in flight, the queued updates are applied for an
+    # observation whose evaluation has failed.  (The engine follows `with` on such a class along the normal exit only.)
+    n_run, eager = 0, []
+    for path, text in sorted(prog.files.items()):
+        if "/visualization/" in path:
+            continue
+        tree = ast.parse(text)
+        for node in ast.walk(tree):
+            if not (isinstance(node, ast.FunctionDef) and node.name == "__exit__" and len(node.args.args) >= 2):
+                continue
+            me, exc = node.args.args[0].arg, {a.arg for a in node.args.args[1:]}
+            parents = {}
+            for x in ast.walk(node):
+                for ch in ast.iter_child_nodes(x):
+                    parents[ch] = x
+            for loop in ast.walk(node):
+                if not isinstance(loop, (ast.For, ast.While)):
+                    continue
+                held = any(isinstance(x, ast.Attribute) and isinstance(x.value, ast.Name) and x.value.id == me
+                           for x in ast.walk(loop.iter if isinstance(loop, ast.For) else loop.test))
+                targets = {x.id for x in ast.walk(loop.target) if isinstance(x, ast.Name)} if isinstance(loop, ast.For) else set()
+                calls = [c for b in loop.body for c in ast.walk(b) if isinstance(c, ast.Call) and (
+                    (isinstance(c.func, ast.Name) and (c.func.id in targets or isinstance(loop, ast.While))) or
+                    (isinstance(c.func, ast.Subscript) and isinstance(c.func.value, ast.Name) and c.func.value.id in targets))]
+                if not (held and calls):
+                    continue
+                n_run += 1
+                guarded, x = False, loop
+                while x in parents and x is not node:
+                    par = parents[x]
+                    if isinstance(par, ast.If) and x in par.body and any(isinstance(t, ast.Name) and t.id in exc for t in ast.walk(par.test)):
+                        guarded = True
+                    x = par
+                # an early `if exc_type is not None: return ...` before the loop also guards it
+                for st in node.body:
+                    if st is loop or any(d is loop for d in ast.walk(st)):
+                        break
+                    if isinstance(st, ast.If) and any(isinstance(t, ast.Name) and t.id in exc for t in ast.walk(st.test)) and \
+                            st.body and isinstance(st.body[-1], (ast.Return, ast.Raise)):
+                        guarded = True
+                if not guarded:
+                    eager.append((path, loop.lineno))
+    for path, line in eager:
+        run.fail("PROPAGATE", f"{path}:__exit__.runs-queue", f"{path}:{line}", path, "__exit__ runs queued calls unconditionally",
+                 "__exit__ carries out the calls that were queued inside the `with` block without looking at the exception it "
+                 "was handed: when a model / loss / imputer call has failed, the updates queued before it are applied all the same")
+    if not eager:
+        run.ok("PROPAGATE", "package.__exit__.queue", f"{n_run} __exit__ methods run queued calls, all only when no exception is in flight")
     # a callback driven by a lazy iterator tool: StopIteration raised by the callback is read as the end of the data
     lazy, n_lazy = [], 0
     LAZY = {"map", "filter", "itertools.starmap", "starmap", "itertools.takewhile", "takewhile", "itertools.dropwhile", "dropwhile",
